@@ -1,2 +1,2 @@
 """Sidecar contracts for the functions of /repo/ghedesigner (nothing in the repository is edited)."""
-MODULES = ["utilities", "shape", "output", "ghe", "search", "realruns", "flow", "loads", "simulate", "gfunc", "polygons", "fields", "cli", "inputs", "history", "equiv", "radial", "rowwise", "rowsearch", "frames"]
+MODULES = ["utilities", "shape", "output", "ghe", "search", "realruns", "flow", "loads", "simulate", "gfunc", "polygons", "fields", "cli", "inputs", "history", "equiv", "radial", "rowwise", "rowsearch", "ctors", "frames"]
